@@ -7,7 +7,7 @@ Executable state machine `step : State → Op → State × Out` written after
 `x/crosschain/types/{msgs,types,params}.go` and `x/crosschain/precompile/execute_claim.go`.
 
 What is modelled (store prefixes in brackets): oracle registry [0x12] with stake / online / slash times, the
-bridger [0x13] and external-address [0x14] indexes, the proposal oracle list, `LastTotalPower` [0x39] (refreshed ONLY where
+external-address [0x13] and bridger [0x14] indexes, the proposal oracle list, `LastTotalPower` [0x39] (refreshed ONLY where
 the code calls `SetLastTotalPower`), `LastObservedEventNonce` [0x24], `LastEventNonceByOracle` [0x23] including the fallback
 for an absent key, attestations [0x17] keyed by (nonce, claim hash id) with ordered vote lists, pending execute claims
 [0x54], pruning with `MaxKeepEventSize`.  Ghost logs `observedLog` / `executedLog` are only appended, never read.
@@ -200,6 +200,24 @@ def requiredSigner (wrapper inner : Nat) : Nat := if claimSignerIsWrapperBridger
 /-- the bridger the vote is looked up for in `MsgServer.Claim` -/
 def voter (wrapper inner : Nat) : Nat := if claimVoterIsWrapperBridger then wrapper else inner
 
+/-- the attestation of (n, h) with the oracle's vote appended (a fresh one when none is stored) -/
+def voteAtt (s : State) (o n h : Nat) : Att :=
+  let att0 : Att := match findAtt s.atts n h with
+    | some a => a
+    | none => { nonce := n, hash := h, votes := [], observed := false }
+  { att0 with votes := att0.votes ++ [o] }
+
+/-- the condition under which `Attest` calls `TryAttestation` -/
+def tallyCond (s : State) (att : Att) (n : Nat) : Bool :=
+  tallyCalled && (!tallyRequiresNotObserved || !att.observed) && (!tallyRequiresNextNonce || n == s.lastObserved + 1)
+
+/-- `Attest` after its contiguity check -/
+def attest (s : State) (o n h : Nat) (kind : Kind) : State :=
+  let att := voteAtt s o n h
+  let s1 : State := { s with atts := setAtt s.atts att }
+  let s2 : State := if tallyCond s att n then tryAttest s1 att kind else s1
+  { s2 with lastNonce := s2.lastNonce.set o n }
+
 def claimStep (s : State) (wrapper inner n h : Nat) (kind : Kind) : State × Out :=
   if !validateBasic wrapper inner then (s, .signerMismatch) else
   match s.byBridger.get (voter wrapper inner) with
@@ -211,16 +229,7 @@ def claimStep (s : State) (wrapper inner n h : Nat) (kind : Kind) : State × Out
       if claimRequiresOnline && !orc.online then (s, .offline) else
       if !logicCheck s kind then (s, .invalid) else
       if attestChecksContiguity && n != effLast s o + 1 then (s, .nonContiguous) else
-      let att0 : Att := match findAtt s.atts n h with
-        | some a => a
-        | none => { nonce := n, hash := h, votes := [], observed := false }
-      let att : Att := { att0 with votes := att0.votes ++ [o] }
-      let s1 : State := { s with atts := setAtt s.atts att }
-      let s2 : State :=
-        if tallyCalled && (!tallyRequiresNotObserved || !att.observed)
-            && (!tallyRequiresNextNonce || n == s.lastObserved + 1)
-        then tryAttest s1 att kind else s1
-      ({ s2 with lastNonce := s2.lastNonce.set o n }, .ok)
+      (attest s o n h kind, .ok)
 
 def bondStep (s : State) (o b e amt : Nat) (dep : Bool) : State × Out :=
   if !s.proposal.contains o then (s, .noOracle) else
@@ -230,25 +239,31 @@ def bondStep (s : State) (o b e amt : Nat) (dep : Bool) : State × Out :=
   if amt < s.params.threshold then (s, .belowMin) else
   if s.params.threshold * s.params.multiple < amt then (s, .aboveMax) else
   if !dep then (s, .dep) else
-  let s1 : State := { s with
+  if refreshOnBond
+  then (refresh { s with
     oracles := s.oracles.set o { bridger := b, ext := e, stake := amt, online := true, slashTimes := 0 }
     byBridger := s.byBridger.set b o
-    byExt := s.byExt.set e o }
-  (if refreshOnBond then refresh s1 else s1, .ok)
+    byExt := s.byExt.set e o }, .ok)
+  else ({ s with
+    oracles := s.oracles.set o { bridger := b, ext := e, stake := amt, online := true, slashTimes := 0 }
+    byBridger := s.byBridger.set b o
+    byExt := s.byExt.set e o }, .ok)
+
+/-- `AddDelegate` once the oracle is found; `sl` is its pending slash amount -/
+def addDelegateTo (s : State) (o : Nat) (orc : Oracle) (sl amt : Nat) (dep : Bool) : State × Out :=
+  if 0 < sl && amt < sl then (s, .invalid) else
+  if orc.stake + (amt - sl) < s.params.threshold then (s, .belowMin) else
+  if s.params.threshold * s.params.multiple < orc.stake + (amt - sl) then (s, .aboveMax) else
+  if !dep then (s, .dep) else
+  if refreshOnAddDelegate
+  then (refresh { s with oracles := s.oracles.set o { orc with stake := orc.stake + (amt - sl), online := true, slashTimes := 0 } }, .ok)
+  else ({ s with oracles := s.oracles.set o { orc with stake := orc.stake + (amt - sl), online := true, slashTimes := 0 } }, .ok)
 
 def addDelegateStep (s : State) (o amt : Nat) (dep : Bool) : State × Out :=
   if !s.proposal.contains o then (s, .noOracle) else
   match s.oracles.get o with
   | none => (s, .noOracle)
-  | some orc =>
-    let sl := orc.slashAmount s.params.slashFrac
-    if 0 < sl && amt < sl then (s, .invalid) else
-    let stake' := orc.stake + (amt - sl)
-    if stake' < s.params.threshold then (s, .belowMin) else
-    if s.params.threshold * s.params.multiple < stake' then (s, .aboveMax) else
-    if !dep then (s, .dep) else
-    let s1 : State := { s with oracles := s.oracles.set o { orc with stake := stake', online := true, slashTimes := 0 } }
-    (if refreshOnAddDelegate then refresh s1 else s1, .ok)
+  | some orc => addDelegateTo s o orc (orc.slashAmount s.params.slashFrac) amt dep
 
 def editBridgerStep (s : State) (o b : Nat) : State × Out :=
   match s.oracles.get o with
@@ -268,8 +283,7 @@ def unbondStep (s : State) (o : Nat) (ubd : Bool) (bal : Nat) (dep : Bool) : Sta
   | some orc =>
     if orc.online then (s, .invalid) else
     if !ubd then (s, .dep) else                       -- stakingKeeper.GetUnbondingDelegation error
-    let sl := orc.slashAmount s.params.slashFrac
-    if 0 < sl && bal < sl then (s, .invalid) else
+    if 0 < orc.slashAmount s.params.slashFrac && bal < orc.slashAmount s.params.slashFrac then (s, .invalid) else
     if !dep then (s, .dep) else
     ({ s with
         byExt := s.byExt.del orc.ext
@@ -280,16 +294,20 @@ def unbondStep (s : State) (o : Nat) (ubd : Bool) (bal : Nat) (dep : Bool) : Sta
 /-- oracles that `UpdateProposalOracles` unbonds: registered, in the old proposal, not in the new one -/
 def govRemoved (s : State) (l : List Nat) (p : Nat × Oracle) : Bool := !l.contains p.1 && s.proposal.contains p.1
 
+/-- Σ online power of the oracles being removed -/
+def govDeleted (s : State) (l : List Nat) : Nat := onlinePower (s.oracles.filter (govRemoved s l))
+
 def govStep (s : State) (l : List Nat) (dep : Bool) : State × Out :=
   if maxOracleSize < l.length then (s, .invalid) else
-  let total := onlinePower s.oracles
-  let del := onlinePower (s.oracles.filter (govRemoved s l))
-  if 0 < del && govChangeThreshold * total / 100 ≤ del then (s, .invalid) else
+  if 0 < govDeleted s l && govChangeThreshold * onlinePower s.oracles / 100 ≤ govDeleted s l then (s, .invalid) else
   if !dep then (s, .dep) else
-  let s1 : State := { s with
+  if refreshOnGovUpdate
+  then (refresh { s with
     proposal := l
-    oracles := s.oracles.map (fun p => if govRemoved s l p then (p.1, { p.2 with online := false }) else p) }
-  (if refreshOnGovUpdate then refresh s1 else s1, .ok)
+    oracles := s.oracles.map (fun p => if govRemoved s l p then (p.1, { p.2 with online := false }) else p) }, .ok)
+  else ({ s with
+    proposal := l
+    oracles := s.oracles.map (fun p => if govRemoved s l p then (p.1, { p.2 with online := false }) else p) }, .ok)
 
 /-- `SlashOracle` -/
 def slashOne (m : Map Oracle) (o : Nat) : Map Oracle :=
@@ -298,18 +316,16 @@ def slashOne (m : Map Oracle) (o : Nat) : Map Oracle :=
   | none => m
 
 def endBlockStep (s : State) (slashed : List Nat) (osr : Bool) : State × Out :=
-  let s1 : State := { s with oracles := slashed.foldl slashOne s.oracles }
-  let s2 := if refreshOnSlash && !slashed.isEmpty then refresh s1 else s1
-  let s3 := if refreshOnOracleSetRequest && osr then refresh s2 else s2
-  (s3, .ok)
+  if (refreshOnSlash && !slashed.isEmpty) || (refreshOnOracleSetRequest && osr)
+  then (refresh { s with oracles := slashed.foldl slashOne s.oracles }, .ok)
+  else ({ s with oracles := slashed.foldl slashOne s.oracles }, .ok)
 
 /-- `ExecuteClaim` called through the precompile: delete-then-run; a handler error makes the EVM revert the native
 action, which restores the deleted entry -/
 def execStep (s : State) (n : Nat) (fails : Bool) : State × Out :=
   if !s.pending.contains n then (s, .notFound) else
-  let s1 : State := { s with pending := s.pending.filter (fun m => m != n) }
-  if fails then (s, .execFailed) else
-  ({ s1 with executedLog := s1.executedLog ++ [n] }, .ok)
+  if fails then (s, .execFailed) else   -- the entry deleted before the handler ran is restored by the revert
+  ({ s with pending := s.pending.filter (fun m => m != n), executedLog := s.executedLog ++ [n] }, .ok)
 
 def step (s : State) : Op → State × Out
   | .claim w i n h k _ => claimStep s w i n h k
